@@ -527,6 +527,22 @@ func p3() {
 
 func main() {
 	res = report.Init("C19", "model_checking")
+	if report.FreeRun > 0 {
+		explore.FreeRuns = report.FreeRun
+		gate.FreeRuns = report.FreeRun
+		p3()
+		for _, en := range []string{"sherpa", "olla"} {
+			if w := newWorld(en, "priority"); w != nil {
+				if learnt := p1(w); learnt != nil {
+					p2(w, learnt, 2, -1)
+					p2(w, learnt, 3, 1)
+				}
+				w.close()
+			}
+		}
+		res.Add("free_runs", int64(explore.FreeRunsDone+gate.FreeRunsDone))
+		res.Finish()
+	}
 	p3() // before any olla instance exists: no background goroutine may touch the shims while the scheduler is active
 	for _, en := range []string{"sherpa", "olla"} {
 		for _, bal := range []string{"priority", "least-connections"} {
